@@ -182,7 +182,10 @@ func replayOne(t *testing.T, u *universe, c replayConsts, b *behaviour, out *vh.
 	// shutdown: Loop must return; a panic of the demux goroutine is re-raised here by conc
 	closed = true
 	p := w.close()
-	if (p != nil) != (last.Dmx == "crashed") {
+	// (a demux parked in enqueueMessage is released by the cancellation and may then pick a queued
+	// message instead of ctx.Done() — the select is a coin flip —, so a panic at shutdown decides
+	// nothing there)
+	if last.Dmx != "blocked" && (p != nil) != (last.Dmx == "crashed") {
 		return &vh.Divergence{Key: "proposal-replay:shutdown", Step: len(b.Steps),
 			What: fmt.Sprintf("Loop ended with %v at shutdown, model says the demux is %q", p, last.Dmx)}
 	}
